@@ -34,8 +34,8 @@ class DiffXReader(object):
     during iteration.
     """
 
-    _HEADER_OPTION_KEY_RE = re.compile(br'[A-Za-z][A-Za-z0-9_-]*')
-    _HEADER_OPTION_VALUE_RE = re.compile(br'[A-Za-z0-9_.-]+')
+    _HEADER_OPTION_KEY_RE = re.compile(br'^[A-Za-z][A-Za-z0-9_-]*$')
+    _HEADER_OPTION_VALUE_RE = re.compile(br'^[A-Za-z0-9/_.-]+$')
     _HEADER_RE = re.compile(
         br'^#(?P<section_id>(?P<level>\.{0,3})'
         br'(?P<section_type>diffx|preamble|meta|change|file|diff)):'
@@ -371,7 +371,7 @@ class DiffXReader(object):
                 if not self._HEADER_OPTION_KEY_RE.match(option_key):
                     raise DiffXParseError(
                         'Header option key "%s" contains invalid characters'
-                        % option_key.decode('ascii'),
+                        % option_key.decode('ascii', 'replace'),
                         linenum=linenum,
                         column=header.index(option_pair))
 
@@ -381,7 +381,7 @@ class DiffXReader(object):
                         'contains invalid characters'
                         % {
                             'key': option_key.decode('ascii'),
-                            'value': option_value.decode('ascii'),
+                            'value': option_value.decode('ascii', 'replace'),
                         },
                         linenum=linenum,
                         column=header.index(option_pair) + len(option_key) + 1)
